@@ -1,5 +1,6 @@
 import Proofs.Delta
 import Proofs.DeltaFlat
+import Proofs.DeltaList
 /-!
 # C08 — bidirectional deltas invert exactly and detect a mismatched base
 
@@ -109,5 +110,17 @@ example : let kvs1 : List (PyVal × PyVal) := [(.str "a", .int 1), (.str "b", .s
     StrKeys kvs1 ∧ StrKeys kvs2 ∧ (kvs1.map (·.1)).Nodup ∧ (kvs2.map (·.1)).Nodup ∧
     (∀ p ∈ kvs1, isBasic p.2 = true) ∧ (∀ p ∈ kvs2, isBasic p.2 = true) := by
   simp [StrKeys, isBasic]
+
+/-! ### lists of scalars compared position by position, end to end -/
+
+/-- **A bidirectional delta of two lists of scalars inverts exactly** (positional mode, any lengths): `t1 + delta` is a
+list `== t2` and `t2 - delta` is a list `== t1`, every recorded old value verified, no error logged. -/
+theorem C08_list_positional_inverse (cfg : DCfg) (hp : Diff.Plain cfg) (hz : cfg.zip = true) (al : Align) (hashOf : PyVal → String)
+    (xs ys : List PyVal) (hbx : ∀ x ∈ xs, isBasic x = true) (hby : ∀ y ∈ ys, isBasic y = true) :
+    (∃ r, applyDelta true (buildDelta false true (.list xs) (.list ys) (deepDiff cfg al hashOf (.list xs) (.list ys))) (.list xs)
+        = { root := .list r, post := [], errs := 0, raised := none } ∧ pyEqL r ys = true) ∧
+    (∃ r, subDelta true (buildDelta false true (.list xs) (.list ys) (deepDiff cfg al hashOf (.list xs) (.list ys))) (.list ys)
+        = .ok { root := .list r, post := [], errs := 0, raised := none } ∧ pyEqL r xs = true) :=
+  list_bidirectional cfg hp al hashOf xs ys hbx hby (list_diffV_zip cfg hp hz al hashOf xs ys hbx)
 
 end Delta
